@@ -142,6 +142,10 @@ def gen_identity(rng, which):
         while True:
             (H, kh, sh_, ph, dh), (W, kw, sw, pw, dw) = gen_ops.geom2(rng)
             if ph <= kh // 2 and pw <= kw // 2: break
+        if rng.chance(.15):        # a window of more than 256 elements
+            n, c = 1, 1
+            H, W = rng.randint(17, 20), rng.randint(17, 20); kh, kw = rng.pick([(17, 17), (16, 17), (H, W)])
+            sh_, sw, ph, pw, dh, dw = rng.randint(1, 3), rng.randint(1, 3), 0, 0, 1, 1
         lh = (H + 2 * ph - dh * (kh - 1) - 1) // sh_ + 1; lw = (W + 2 * pw - dw * (kw - 1) - 1) // sw + 1
         x = b.leaf((n, c, H, W), V((n, c, H, W), 'distinct'))
         name = 'max_pool2d' if which == 'maxpool' else 'avg_pool2d'
